@@ -33,6 +33,10 @@ RULES = {
                                          {"s": 2, "op": "min", "e": "x + 1", "signed": False, "extra": [], "approx": True}],
     "branch-replacements": [A("x == 5"), {"s": 0, "op": "branch"}, A("ZeroExt(1, y) == x + 1", 1), E("y", 20, 1), E("y", 3, 0), A("y == 2", 0), E("x", 2, 0)],
     # witness of the open finding C13-replaced-constant-on-unsat (replayed on every run)
+    "constant-on-unsat-solution": [A("x != 5"), A("x == 5"), {"s": 0, "op": "solution", "e": "x", "v": 5, "extra": []}],
+    "constant-on-unsat-min": [A("x != 5"), A("x == 5"), {"s": 0, "op": "min", "e": "x", "signed": False, "extra": []}],
+    "constant-on-unsat-max": [A("x != 5"), A("x == 5"), {"s": 0, "op": "max", "e": "x", "signed": False, "extra": []}],
+    "constant-on-unsat-batch_eval": [A("x != 5"), A("x == 5"), {"s": 0, "op": "batch_eval", "es": ["x", "x"], "n": 2, "extra": []}],
     "constant-on-unsat": [A("x != 5"), A("x == 5"), E("x", 20), {"s": 0, "op": "min", "e": "x", "signed": False, "extra": []},
                           {"s": 0, "op": "max", "e": "x", "signed": False, "extra": []}, {"s": 0, "op": "batch_eval", "es": ["x", "x"], "n": 2, "extra": []}],
 }
@@ -55,6 +59,10 @@ FLOAT_RULES = {
                                    FA("fpEQ(f, g)"), FSOL("If(fpEQ(f, g), fpToIEEEBV(f), fpToIEEEBV(g))", 1 << 63)],
     "two-variables-equal": [FA("fpEQ(f, g)"), FA("fpToIEEEBV(f) == 0"), FE("fpToIEEEBV(g)"), FSOL("fpToIEEEBV(g)", 1 << 63), FOPT("max", "fpToIEEEBV(g)")],
 }
+# witness of the same finding on SolverReplacement(auto_replace=False), where a replacement can only come from add_replacement()
+NOAUTO_WITNESS = [[{"s": 0, "op": "add", "cs": ["(x) == 5"], "repl": ["x", 5]}, A("x == 7"), q] for q in (
+    E("x & 3", 20), {"s": 0, "op": "min", "e": "x", "signed": False, "extra": []}, {"s": 0, "op": "max", "e": "x + 1", "signed": False, "extra": []},
+    {"s": 0, "op": "batch_eval", "es": ["x", "x"], "n": 2, "extra": []}, {"s": 0, "op": "solution", "e": "x", "v": 5, "extra": []})]
 SIMPLE_C = ["ULE(x, 11)", "UGE(x, 3)", "x == 5", "x != 5", "ULT(y, 6)", "UGE(y, 2)", "y == 6", "ULE(z, 4)", "UGT(z, 1)", "ULT(x, 3)", "UGE(x, 8)"]
 SIMPLE_E = ["x", "y", "z", "x + 1", "y + 2"]
 STRUCT_W = {"add": 30, "satisfiable": 14, "eval": 10, "batch_eval": 2, "min": 5, "max": 5, "solution": 4, "branch": 6, "split": 7, "combine": 5,
@@ -77,9 +85,11 @@ def jobs_exact(ctx, mult=1):
     jobs = []
     for cls in ("SolverReplacement", "SolverReplacement:noauto", "SolverHybrid"):
         for name, h in RULES.items():
-            if name == "constant-on-unsat" and cls != "SolverReplacement":
+            if name.startswith("constant-on-unsat") and cls != "SolverReplacement":
                 continue
             jobs.append({"cls": cls, "cfg": {"track": False, "reuse": False}, "hist": h})
+        if cls == "SolverReplacement:noauto":
+            jobs += [{"cls": cls, "cfg": {"track": False, "reuse": False}, "hist": [dict(d) for d in h]} for h in NOAUTO_WITNESS]
         n = ctx.pick(44, 320) * mult
         lens = ctx.pick([10, 20, 30], [30, 60, 120])
         for i in range(n):
@@ -220,7 +230,7 @@ def run(ctx):
         if kd not in seen:
             seen.add(kd)
             pick.append(f)
-    SC.report_failures(ctx, "C13", pick, max_report=8)
+    SC.report_failures(ctx, "C13", pick, max_report=14)
     seen = set()
     for f in vsa_fails:
         k, kind, why = f["fails"][0]
